@@ -75,6 +75,7 @@ class ExceptionFlow:
                 self.bases[r['name']] = bs
         self.esc = {}           # func key -> {type: origin chain}
         self.exempted = []
+        self.std_sites = set()      # (function, library callee) pairs matched against the thrower table
         self._solve()
 
     def is_a(self, ty, base):
@@ -122,6 +123,7 @@ class ExceptionFlow:
             elif k in ('call', 'ctor'):
                 n = cname(e).replace('std::__cxx11::', 'std::')     # libstdc++'s inline ABI namespace
                 if n in STD_THROWERS:
+                    self.std_sites.add((f.sname, n))
                     for ty in STD_THROWERS[n]:
                         out.append((ty, e.get('ln'), '%s:%s %s' % (f.file, e.get('ln'), n), None, e))
         return out
